@@ -16,13 +16,15 @@ EXPLANATION = (
     "combine tuple, is copy.deepcopy(<variable>.var_context) made for that call, and Variable.__call__ stores "
     "nothing through self; (c) inside Variable._update_context every store through the value's context has the "
     "constant first key 'variable' (other stores go through aliases of context['variable'] or of the new "
-    "var_context) and __call__ returns (getter(data), the unpacked context); (d) the constructors reject "
+    "var_context), the loop that carries the subcontexts of earlier types over to the new context['variable'] ranges over "
+    "the whole list stored under 'compose', and __call__ returns (getter(data), the unpacked context); (d) the constructors reject "
     "non-callable/Variable getters and empty/non-Variable argument lists with LenaTypeError before any state is "
     "built.  Does not decide the nested-dictionary values (that compose lists types in order for all chains).")
 RULES = {
     "C14-a": "FOLD: Compose getter/context and Combine getter iterate self._vars forwards, threading the value",
     "C14-b": "FRESH: every var_context given to _update_context / stored in combine is a per-call deepcopy; __call__ does not write self",
-    "C14-c": "locality: _update_context stores only under context['variable']; __call__ returns (getter(data), context)",
+    "C14-c": "locality: _update_context stores only under context['variable'] and carries the subcontexts of all composed "
+             "types over to the new one; __call__ returns (getter(data), context)",
     "C14-d": "TYPESTATE: Variable/Combine/Compose reject bad arguments with LenaTypeError before building state",
 }
 VAR = "lena.variables.variable"
@@ -127,6 +129,43 @@ def check_fold(ctx):
 
 
 ALLOWED_FOREIGN_ATTRS = {"getter", "var_context", "name"}
+OWN_ROOTS = {"self", "lena", "copy", "object", "Variable", "super"}
+CONTAINER_LITERALS = (ast.Dict, ast.List, ast.Tuple, ast.Set, ast.Constant)
+
+
+def own_locals(fn):
+    """Locals of *fn* (however they are called) that only ever name containers built in fn itself:
+    every binding is a plain `name = <expr>` whose value is a dict/list/tuple literal or an alias /
+    item of another such local.  Loop and comprehension targets, unpacked names, names bound in nested
+    functions and parameters are never own: they may name an argument variable."""
+    params = set(A.func_params(fn))
+    values, other, simple = {}, set(), set()
+    for n in ast.walk(fn):
+        if n is not fn and isinstance(n, A.FUNC):
+            params.update(A.func_params(n))
+        if isinstance(n, ast.Assign) and len(n.targets) == 1 and isinstance(n.targets[0], ast.Name) \
+                and A.enclosing_func(n) is fn:
+            values.setdefault(n.targets[0].id, []).append(n.value)
+            simple.add(id(n.targets[0]))
+    for n in ast.walk(fn):
+        if isinstance(n, ast.Name) and isinstance(n.ctx, (ast.Store, ast.Del)) and id(n) not in simple:
+            other.add(n.id)
+        elif isinstance(n, ast.ExceptHandler) and n.name:
+            other.add(n.name)
+        elif isinstance(n, (ast.Global, ast.Nonlocal)):
+            other.update(n.names)
+    own = set()
+    changed = True
+    while changed:
+        changed = False
+        for name, vals in values.items():
+            if name in own or name in other or name in params:
+                continue
+            if all(isinstance(v, CONTAINER_LITERALS) or (isinstance(v, (ast.Name, ast.Subscript)) and A.root_name(v) in own)
+                   for v in vals):
+                own.add(name)
+                changed = True
+    return own
 
 
 def check_black_box(ctx):
@@ -137,6 +176,9 @@ def check_black_box(ctx):
     n = 0
     for qual in ("Compose.__init__", "Combine.__init__"):
         fn = ctx.tree.func(VAR, qual)
+        skip = OWN_ROOTS | own_locals(fn)
+        if fn.args.kwarg is not None:
+            skip.add(fn.args.kwarg.arg)
         for x in ast.walk(fn):
             attr = base = None
             if isinstance(x, ast.Attribute) and isinstance(x.ctx, ast.Load):
@@ -147,7 +189,7 @@ def check_black_box(ctx):
             if attr is None:
                 continue
             root = A.root_name(base) if isinstance(base, (ast.Name, ast.Attribute, ast.Subscript)) else None
-            if root in (None, "self", "lena", "copy", "object", "Variable", "kwargs", "var_context", "compose", "super"):
+            if root is None or root in skip:
                 continue
             if isinstance(base, ast.Call):
                 continue
@@ -286,6 +328,7 @@ def check_locality(ctx):
             if not local_new:
                 ctx.unknown("C14-c", n, "store through `%s`, whose origin the analyser does not know" % root)
     ctx.instances_floor("C14-c", n_st, 4, "stores in _update_context")
+    check_carry_over(ctx, fn, inner)
     # __call__ result
     call = ctx.tree.func(VAR, "Variable.__call__")
     rets = [r for r in A.walk_local(call) if isinstance(r, ast.Return)]
@@ -304,9 +347,115 @@ def check_locality(ctx):
               detail="__call__ returns (getter(data), the value's own context)", construct="call-return")
 
 
+def whole_extent(expr, name):
+    """Does iterating *expr* visit every element of the list called *name*?  'whole' (the list itself, possibly
+    through iter/list/tuple/reversed/sorted/set, which keep every element), 'part' (a slice, an index, filter,
+    islice of it), 'unknown' (not related to the list by the analyser)."""
+    if isinstance(expr, ast.Name):
+        return "whole" if expr.id == name else "unknown"
+    if isinstance(expr, ast.Call) and expr.args:
+        inner = whole_extent(expr.args[0], name)
+        cn = A.call_name(expr)
+        if cn in ("iter", "list", "tuple", "reversed", "set", "frozenset") and len(expr.args) == 1 and not expr.keywords:
+            return inner
+        if cn == "sorted" and len(expr.args) == 1:      # key=/reverse= change the order only
+            return inner
+        if cn == "islice" and inner != "unknown":
+            return "part"
+        if cn == "filter" and len(expr.args) == 2 and whole_extent(expr.args[1], name) != "unknown":
+            return "part"
+        return "unknown"
+    if isinstance(expr, ast.Subscript) and whole_extent(expr.value, name) != "unknown":
+        return "part"
+    return "unknown"
+
+
+def check_carry_over(ctx, fn, inner):
+    """context['variable'] is replaced by the new var_context on every application, so the subcontexts of
+    *all* earlier types have to be carried over each time: the loop that stores cvar[<type>] for the types of the
+    composition must range over the whole list that is stored under 'compose', not over a part of it.
+    All names are derived: *inner* are the aliases of context['variable'] / var_context, the list is the name
+    stored under the constant key 'compose', the loops are those storing <alias>[<loop variable>]."""
+    lists = set()
+    other = False
+    for n in A.walk_local(fn):
+        if isinstance(n, ast.Assign):
+            for t in n.targets:
+                if isinstance(t, ast.Subscript) and A.const(t.slice) == "compose":
+                    if isinstance(n.value, ast.Name):
+                        lists.add(n.value.id)
+                    elif not isinstance(n.value, (ast.List, ast.ListComp)):
+                        other = True
+    loops = []
+    for loop in A.walk_local(fn):
+        if not isinstance(loop, ast.For) or not isinstance(loop.target, ast.Name):
+            continue
+        tv = loop.target.id
+        if any(isinstance(t, ast.Subscript) and isinstance(t.ctx, ast.Store) and A.root_name(t) in inner
+               and isinstance(t.slice, ast.Name) and t.slice.id == tv for t in A.walk_body(loop.body)):
+            loops.append(loop)
+    if not ctx.require(loops and len(lists) == 1 and not other, "C14-c", fn,
+                       "_update_context: the loop carrying earlier types over to the new context['variable'] / the list "
+                       "stored under 'compose' not recognised"):
+        return
+    lst = sorted(lists)[0]
+    for loop in loops:
+        ext = whole_extent(loop.iter, lst)
+        if ext == "unknown":
+            ctx.unknown("C14-c", loop, "_update_context carries earlier types over by iterating `%s`, which the analyser cannot "
+                        "relate to the list stored under 'compose'" % A.short(loop.iter, 60))
+            continue
+        ctx.check("C14-c", ext == "whole", loop,
+                  "_update_context carries over the subcontexts of only a part of the composed types (`%s`): "
+                  "context['variable'] is replaced on every application, so the description of an earlier variable is "
+                  "lost under its type as soon as the chain is longer than that part" % A.short(loop.iter, 60),
+                  detail="subcontexts of all composed types are carried over to the new context['variable']",
+                  construct="carry-over-extent")
+
+
+def tests_each_is_variable(node):
+    """*node* contains a comprehension that applies isinstance(<its own target>, Variable) to its elements
+    (whatever the comprehension variable is called)."""
+    for comp in ast.walk(node):
+        if not isinstance(comp, (ast.GeneratorExp, ast.ListComp, ast.SetComp)):
+            continue
+        targets = set()
+        for g in comp.generators:
+            targets.update(A.target_names(g.target))
+        for c in ast.walk(comp):
+            if isinstance(c, ast.Call) and A.call_name(c) == "isinstance" and isinstance(c.func, ast.Name) and len(c.args) == 2 \
+                    and isinstance(c.args[0], ast.Name) and c.args[0].id in targets and A.src(c.args[1]) == "Variable":
+                return True
+    return False
+
+
+def negated_names(test):
+    """Names n such that `not n` occurs in *test*."""
+    return {u.operand.id for u in ast.walk(test)
+            if isinstance(u, ast.UnaryOp) and isinstance(u.op, ast.Not) and isinstance(u.operand, ast.Name)}
+
+
+def variable_flags(fn):
+    """name -> value for the locals of *fn* that record whether the arguments are Variables: bound exactly
+    once in fn, by a plain top-level `name = <expr>` whose value applies isinstance(<element>, Variable)
+    to the elements of a comprehension.  The local is identified by its definition, not by its name."""
+    bound = {}
+    for n in ast.walk(fn):
+        if isinstance(n, ast.Name) and isinstance(n.ctx, (ast.Store, ast.Del)):
+            bound[n.id] = bound.get(n.id, 0) + 1
+    out = {}
+    for st in fn.body:
+        if isinstance(st, ast.Assign) and len(st.targets) == 1 and isinstance(st.targets[0], ast.Name) \
+                and bound.get(st.targets[0].id) == 1 and tests_each_is_variable(st.value):
+            out[st.targets[0].id] = st.value
+    return out
+
+
 def guards_before_state(ctx, fn, label, needed):
-    """Every needed (test-source-fragment) has an `if` whose taken branch raises
-    LenaTypeError, located before the first store of state."""
+    """Every needed (key, matcher, why) has an `if` whose taken branch raises LenaTypeError, located before
+    the first store of state.  matcher is a fragment of the test's source made of API names only
+    (parameters, module-level names), or a predicate on the test node where locals are involved; key is
+    the name-free text used in messages and finding keys."""
     res = ctx.res
     first_state = None
     for st in fn.body:
@@ -318,12 +467,14 @@ def guards_before_state(ctx, fn, label, needed):
                 first_state = first_state or st
         if first_state:
             break
-    for frag, why in needed:
+    for frag, matcher, why in needed:
+        if matcher is None:
+            matcher = (lambda test, frag=frag: frag in A.src(test))
         hit = None
         for st in fn.body:
             if first_state is not None and st is first_state:
                 break
-            if isinstance(st, ast.If) and frag in A.src(st.test):
+            if isinstance(st, ast.If) and matcher(st.test):
                 raises = [r for r in st.body if isinstance(r, ast.Raise)]
                 if raises and raises[0].exc is not None:
                     e = raises[0].exc.func if isinstance(raises[0].exc, ast.Call) else raises[0].exc
@@ -334,15 +485,20 @@ def guards_before_state(ctx, fn, label, needed):
 
 
 def check_constructors(ctx):
+    # getter, args are parameters (API names); the flag local of Combine and the comprehension variables are
+    # recognised by what they are bound to, the keys keep the names used in the documentation of the rule
     guards_before_state(ctx, ctx.tree.func(VAR, "Variable.__init__"), "Variable.__init__",
-                        [("isinstance(getter, Variable)", "a Variable as getter"), ("not callable(getter)", "a non-callable getter")])
-    guards_before_state(ctx, ctx.tree.func(VAR, "Combine.__init__"), "Combine.__init__",
-                        [("not args", "an empty argument list"), ("not all_vars", "non-Variable arguments")])
-    guards_before_state(ctx, ctx.tree.func(VAR, "Compose.__init__"), "Compose.__init__",
-                        [("not args", "an empty argument list"), ("isinstance(arg, Variable)", "non-Variable arguments")])
+                        [("isinstance(getter, Variable)", None, "a Variable as getter"),
+                         ("not callable(getter)", None, "a non-callable getter")])
     cinit = ctx.tree.func(VAR, "Combine.__init__")
-    allv = [a for a in cinit.body if isinstance(a, ast.Assign) and any(A.src(t) == "all_vars" for t in a.targets)]
-    ctx.check("C14-d", len(allv) == 1 and "isinstance(arg, Variable)" in A.src(allv[0].value) and A.call_name(allv[0].value) == "all",
+    flags = variable_flags(cinit)
+    guards_before_state(ctx, cinit, "Combine.__init__",
+                        [("not args", None, "an empty argument list"),
+                         ("not all_vars", lambda test: bool(negated_names(test) & set(flags)), "non-Variable arguments")])
+    guards_before_state(ctx, ctx.tree.func(VAR, "Compose.__init__"), "Compose.__init__",
+                        [("not args", None, "an empty argument list"),
+                         ("isinstance(arg, Variable)", tests_each_is_variable, "non-Variable arguments")])
+    ctx.check("C14-d", len(flags) == 1 and all(A.call_name(v) == "all" and isinstance(v.func, ast.Name) for v in flags.values()),
               cinit, "Combine.__init__: all_vars is not all(isinstance(arg, Variable) ...)", detail="all_vars tests every argument",
               construct="all_vars")
 
@@ -368,10 +524,12 @@ VARIANTS = [
       "self._arg_var.var_context)", ["C14-b"]),
     M("update-context-foreign-key", "lena/variables/variable.py", "        context[\"variable\"] = var_context\n",
       "        context[\"variable\"] = var_context\n        context[\"last_variable\"] = var_context.get(\"name\")\n", ["C14-c"]),
-    M("call-caches", "lena/variables/variable.py", "        data = self.getter(data)\n        self._update_context",
-      "        data = self.getter(data)\n        self.var_context[\"last\"] = data\n        self._update_context", ["C14-b"]),
+    M("call-caches", "lena/variables/variable.py", "        data = self.getter(data)\n",
+      "        data = self.getter(data)\n        self.var_context[\"last\"] = data\n", ["C14-b"]),
     M("getter-typeerror", "lena/variables/variable.py", "        if not callable(getter):\n            raise lena.core.LenaTypeError(",
       "        if not callable(getter):\n            raise lena.core.LenaValueError(", ["C14-d"]),
+    M("carry-over-last-two", "lena/variables/variable.py", "for type_ in composed:", "for type_ in composed[-2:]:", ["C14-c"]),
+    TW("carry-over-reversed", "lena/variables/variable.py", "for type_ in composed:", "for type_ in reversed(composed):"),
     TW("local-copy-alias", "lena/variables/variable.py", "        self._update_context(context, copy.deepcopy(self.var_context))",
        "        vc = copy.deepcopy(self.var_context)\n        self._update_context(context, vc)"),
 ]
